@@ -79,7 +79,7 @@ func play(c Case, withGC bool, v *ev.Verdict) (executed [][]string, fail *ev.Ver
 			os.WriteFile(filepath.Join(root, ".dawn", "build", "temp", "stray123"), []byte("{"), 0o644)
 			before := readState(root)
 			outBefore := projsim.HashTree(root, outside)
-			res := sim.Build(projsim.BuildReq{GC: "before", NoRun: true, PreferIndex: style == "index"})
+			res := sim.Build(projsim.BuildReq{GC: "before", NoRun: true, PreferIndex: style == "index", PathsFor: m.AllLabels()})
 			if res.Panic != "" {
 				f := ev.Failf("panic", "%s: panic: %s", where, res.Panic)
 				return nil, &f
@@ -104,7 +104,10 @@ func play(c Case, withGC bool, v *ev.Verdict) (executed [][]string, fail *ev.Ver
 					labels = append(labels, m.Pkgs[m.Targets[t].Pkg]+":default")
 				}
 				for _, l := range labels {
-					rp := projsim.RecordPath(l)
+					rp, known := res.RecordPaths[l]
+					if !known {
+						continue
+					}
 					liveRecords[rp] = true
 					b, had := before[rp]
 					a, has := after[rp]
